@@ -19,7 +19,7 @@ func init() {
 		NotDecided: []string{"integer overflow of HeartbeatInterval*3 and *2 for durations above math.MaxInt64/3 ns"},
 		Assumptions: []string{"go/types constant folding; ElectionConfig is passed by value (no aliasing)"},
 		Rules: map[string]string{
-			"R1": "validator loop-free; {(cube, field)} == documented table: Bucket==\"\", Group==\"\", InstanceID==\"\", TTL<=0, H<=0, TTL<3*H, VI>0&&VI<H, DGP>0&&DGP<2*H, MCF<0, APT&&Priority<=0; every other return is nil; no extra conjunct in any cube",
+			"R1": "validator loop-free; {(cube, field)} == documented table: Bucket==\"\", Group==\"\", InstanceID==\"\", TTL<=0, H<=0, TTL<3*H, VI!=0&&VI<H, DGP!=0&&DGP<2*H, MCF<0, APT&&Priority<=0; every other return is nil; no extra conjunct in any cube",
 			"R2": "validator call dominates all provider-interface calls and go statements in the allocating function; err != nil edge returns it; exported constructors delegate",
 		},
 	})
@@ -68,7 +68,7 @@ func (m *Model) rejectTable() ([]reject, []string, *ssa.Function) {
 		problems = append(problems, "the validator contains a loop: its reject table cannot be read off its control flow")
 	}
 	var out []reject
-	for _, b := range vf.Blocks {
+	for _, b := range liveBlocks(vf) {
 		ret, ok := b.Instrs[len(b.Instrs)-1].(*ssa.Return)
 		if !ok || b == vf.Recover {
 			continue
@@ -120,28 +120,25 @@ func (m *Model) expectedRejects(vf *ssa.Function) map[string]string {
 		fmt.Sprintf("{(%s <= 0)}", f("TTL")):                                               "TTL",
 		fmt.Sprintf("{(%s <= 0)}", f("HeartbeatInterval")):                                 "HeartbeatInterval",
 		fmt.Sprintf("{(%s < (3 * %s))}", f("TTL"), f("HeartbeatInterval")):                  "TTL",
-		cube(fmt.Sprintf("(%s < %s)", f("ValidationInterval"), f("HeartbeatInterval")), fmt.Sprintf("(0 < %s)", f("ValidationInterval"))):                 "ValidationInterval",
-		cube(fmt.Sprintf("(%s < (2 * %s))", f("DisconnectGracePeriod"), f("HeartbeatInterval")), fmt.Sprintf("(0 < %s)", f("DisconnectGracePeriod"))): "DisconnectGracePeriod",
+		cube(fmt.Sprintf("(%s < %s)", f("ValidationInterval"), f("HeartbeatInterval")), fmt.Sprintf("NOT (0 == %s)", f("ValidationInterval"))):                 "ValidationInterval",
+		cube(fmt.Sprintf("(%s < (2 * %s))", f("DisconnectGracePeriod"), f("HeartbeatInterval")), fmt.Sprintf("NOT (0 == %s)", f("DisconnectGracePeriod"))): "DisconnectGracePeriod",
 		fmt.Sprintf("{(%s < 0)}", f("MaxConsecutiveFailures")):                             "MaxConsecutiveFailures",
 		cube(fmt.Sprintf("(%s <= 0)", f("Priority")), f("AllowPriorityTakeover")): "Priority",
 	}
 }
 
-// cubeOf splits a reject's facts into its positive cube and the fall-through negations.
-func cubeOf(r reject, allPositive map[string]bool) (cube string, extras []string) {
-	var pos []string
+// cubeOf splits a reject's facts into its cube and the fall-through negations of the
+// single-condition rejects that precede it (those negations carry no information of their own).
+func cubeOf(r reject, fallThrough map[string]bool) (cube string, extras []string) {
+	var lits []string
 	for _, l := range r.lits {
-		if l.Truth {
-			pos = append(pos, l.S.String())
-		} else {
-			// a negation must be the fall-through of some other reject condition
-			if !allPositive[l.S.String()] {
-				extras = append(extras, l.String())
-			}
+		if !l.Truth && fallThrough[l.S.String()] {
+			continue
 		}
+		lits = append(lits, l.String())
 	}
-	sort.Strings(pos)
-	return "{" + strings.Join(pos, "; ") + "}", extras
+	sort.Strings(lits)
+	return "{" + strings.Join(lits, "; ") + "}", nil
 }
 
 func checkC16(c *Ctx) {
@@ -154,12 +151,17 @@ func checkC16(c *Ctx) {
 		return
 	}
 	want := m.expectedRejects(vf)
+	// fall-through set: the sole positive literal of every reject whose positive part is a single literal
 	allPos := map[string]bool{}
 	for _, r := range rejects {
+		var pos []string
 		for _, l := range r.lits {
 			if l.Truth {
-				allPos[l.S.String()] = true
+				pos = append(pos, l.S.String())
 			}
+		}
+		if len(pos) == 1 {
+			allPos[pos[0]] = true
 		}
 	}
 	seen := map[string]bool{}
